@@ -407,7 +407,7 @@ func TestPropStutteringEndpoint(t *testing.T) {
 			flush:     time.Duration(rapid.SampledFrom([]int{1, 100, 1000}).Draw(t, "flushMs")) * time.Millisecond,
 			volume:    rapid.SampledFrom([]int{8, 24}).Draw(t, "volumeMB") << 20,
 			lineLen:   rapid.SampledFrom([]int{30, 70, 200}).Draw(t, "linelen"),
-			stutter:   time.Duration(rapid.SampledFrom([]int{3, 5, 7, 11, 12, 14}).Draw(t, "stutterS")) * time.Second,
+			stutter:   time.Duration(rapid.SampledFrom([]int{3, 5, 11, 12, 14}).Draw(t, "stutterS")) * time.Second,
 		}
 		o := run(sc)
 		if o.starved {
